@@ -55,11 +55,34 @@ structure Codes where
   (only the last item survives; dtlcp before repair F28) -/
   curvesMode : Nat
   sigAlgsMode : Nat
-  /-- dtlcp: kinds (type codes) whose unmarshal starts with the complete-message check -/
+  /-- type codes of the messages whose unmarshal starts with the complete-message guard
+  (`tlcpIsCompleteMessage`, repair F18b / `dtlcpIsCompleteMessage`, repair F18a) -/
   complete : List Nat
   deriving Repr
 
 def isEmpty (s : Bytes) : Bool := match s with | [] => true | _ => false
+
+/-- `if !xIsCompleteMessage(data, t) { return false }` in front of the rest `k` of an unmarshal
+(`on` = this unmarshal has the guard) -/
+def guardWith {α : Type} (on : Bool) (chk : Outcome Bool) (k : Outcome α) : Outcome α :=
+  if on then
+    match chk with
+    | .ok true => k
+    | .ok false => .reject
+    | .reject => .reject
+    | .panic => .panic
+  else k
+
+/-- `tlcpIsCompleteMessage(data, msgType)` (repair F18b), hand-indexed -/
+def tlcpIsCompleteMessage (data : Bytes) (t : Nat) : Outcome Bool :=
+  if data.length < 4 then .ok false else do
+    let ty ← idx data 0
+    if ty ≠ u8 t then .ok false else do
+      let l ← idx24 data 1
+      .ok (decide (l = data.length - 4))
+
+def guardT {α : Type} (c : Codes) (t : Nat) (data : Bytes) (k : Outcome α) : Outcome α :=
+  guardWith (c.complete.contains t) (tlcpIsCompleteMessage data t) k
 
 /-! ## opaque-body messages of tlcp -/
 
@@ -529,5 +552,18 @@ def decServerHello (c : Codes) (data : Bytes) : Outcome ServerHello :=
   match skip 4 data with
   | none => .reject
   | some s => Outcome.ofOption (decServerHelloBody c s)
+
+/-! ## the nine tlcp unmarshals as they are called (guard first, then the bodies above) -/
+
+def unmarshalFinished (c : Codes) (data : Bytes) : Outcome Blob := guardT c c.tFinished data (decFinished data)
+def unmarshalServerHelloDone (c : Codes) (data : Bytes) : Outcome Unit := guardT c c.tServerHelloDone data (decServerHelloDone data)
+def unmarshalCertificateVerify (c : Codes) (data : Bytes) : Outcome Blob := guardT c c.tCertificateVerify data (decCertificateVerify data)
+def unmarshalClientKeyExchange (c : Codes) (data : Bytes) : Outcome Blob := guardT c c.tClientKeyExchange data (decClientKeyExchange data)
+def unmarshalServerKeyExchange (c : Codes) (data : Bytes) : Outcome Blob := guardT c c.tServerKeyExchange data (decServerKeyExchange data)
+def unmarshalCertificate (c : Codes) (data : Bytes) : Outcome Certificate := guardT c c.tCertificate data (decCertificate c data)
+def unmarshalCertificateRequest (c : Codes) (data : Bytes) : Outcome CertificateRequest :=
+  guardT c c.tCertificateRequest data (decCertificateRequest c data)
+def unmarshalServerHello (c : Codes) (data : Bytes) : Outcome ServerHello := guardT c c.tServerHello data (decServerHello c data)
+def unmarshalClientHello (c : Codes) (data : Bytes) : Outcome ClientHello := guardT c c.tClientHello data (decClientHello c data)
 
 end Gotlcp.Model.Codec
